@@ -18,6 +18,7 @@ REGISTRY = {
     'C07': ('contracts.propsets', 'C07'),
     'C10': ('contracts.propsets', 'C10'),
     'C11': ('contracts.propsets', 'C11'),
+    'C12': ('contracts.propsets', 'C12'),
     'C17': ('contracts.propsets', 'C17'),
 }
 
